@@ -9,7 +9,7 @@
    Depends on the models and the regenerated constants only (not on the proofs). *)
 From Coq Require Import List Bool String ZArith NArith Arith.
 Import ListNotations.
-From HV Require Export run.C03Run model.Schema model.SchemaFast model.DocJson spec.DocJsonS gen.Schemas.
+From HV Require Export run.C03Run model.Schema model.SchemaFast model.DocJson spec.DocJsonS spec.StaticWiringS gen.Schemas.
 Open Scope nat_scope.
 
 Definition fuel := default_fuel.
@@ -45,7 +45,10 @@ Definition expand_all (strs : list string) (defs : list sj) : list json := rev (
 
 Record sdoc := { d_entry : string; d_doc : N; d_py : bool }.      (* d_doc: index of the document's definition *)
 Definition Sd := Build_sdoc.
-Record tie := { t_enc : option string; t_doc : option N }.       (* None: to_json() raised *)
+Record tie := { t_enc : option string; t_doc : option N;         (* None: to_json() raised *)
+                (* which static-port clauses apply to this HUGR (spec/StaticWiringS.v): all static links were made by the
+                   builder API / no static input was unwired by a deletion *)
+                t_sedges : bool; t_swired : bool }.
 Definition Ti := Build_tie.
 Record jcase := {
   j_case : case;                           (* the C02/C03 case *)
@@ -129,7 +132,29 @@ Definition jdoc_index_sane (entry : string) (d : json) : bool :=
 Definition mon_jidx (j : jcase) : bool :=
   let tab := expand_all (j_strs j) (j_defs j) in
   forallb (fun d => jdoc_index_sane (d_entry d) (def_at tab (d_doc d))) (j_docs j).
-Definition mon (j : jcase) : bool := mon_typed j && mon_py j && mon_coq j && mon_jidx j.
+(* the static port sits immediately after the value inputs: on the implementation's document, with the port counts
+   the reader's contract assigns to the ENCODED operations (opinfo of the case, harness reader_ports) *)
+Definition info_of (h : hugrT) : list opinfo :=
+  flat_map (fun n : option nodeT => match n with Some x => [n_op x] | None => [] end) (h_nodes h).
+Definition c_has_sout (tab : list opinfo) (c : N) : bool := let o := o_dec tab c in negb (o_ord o) && (o_sout o =? 1).
+Definition c_sin_port (tab : list opinfo) (c : N) : option nat := let o := o_dec tab c in if o_sin o =? 1 then Some (o_vin o) else None.
+Definition static_ok (r : rt) (t : tie) : bool :=
+  match r_doc r with
+  | Some s =>
+      let tab := info_of (r_h r) in
+      (* as for port_addressing_b: only for HUGRs whose links attach to ports their operations have *)
+      negb (ports_exist_b o_v o_s o_ord (r_h r)) ||
+      (negb (t_sedges t) || static_edges_ok (c_has_sout tab) (c_sin_port tab) s) &&
+      (negb (t_swired t) || static_wired_ok (c_has_sout tab) (c_sin_port tab) s)
+  | None => true
+  end.
+Fixpoint statics_ok (rs : list rt) (ts : list tie) : bool :=
+  match rs, ts with
+  | r :: rs', t :: ts' => static_ok r t && statics_ok rs' ts'
+  | _, _ => true
+  end.
+Definition mon_static (j : jcase) : bool := statics_ok (rts_of (j_case j)) (j_ties j).
+Definition mon (j : jcase) : bool := mon_typed j && mon_py j && mon_coq j && mon_jidx j && mon_static j.
 
 (* the case literals are read with strings as `string` and unannotated numbers as `nat` (gen/Schemas.v opens Z_scope) *)
 Open Scope string_scope.
